@@ -155,6 +155,8 @@ class Interp:
                 return
             elif isinstance(s, ast.Expr) and isinstance(s.value, ast.Constant):
                 continue
+            elif isinstance(s, (ast.Pass, ast.Assert)):
+                continue        # an assertion either holds or ends the step with an exception: the values on the normal path are unchanged
             else:
                 raise AnalysisError(f'statement kind {type(s).__name__} outside the straight-line iterator idiom')
         raise AnalysisError('iterator does not return')
